@@ -1,7 +1,7 @@
 (* Props/C05.v — property C05: theorems only; each closed by [exact] of a lemma proved elsewhere, followed by
    Print Assumptions. The statements are about every trace admitted by the protocol model (Sim/Proto.v,
    rules with constants regenerated from /repo), at every position of the trace. *)
-From LE Require Import Base Ev World Mon Mon2 Proto Consts GenGuards Config ConfigSpec GenConfig SimBasics SimOwn SimCallbacks SimTheorems GuardFacts Timing Witness.
+From LE Require Import Base Ev World Mon Mon2 Proto Consts GenGuards Config ConfigSpec GenConfig SimBasics SimOwn SimCallbacks SimTheorems GuardFacts Timing Witness Env EnvT SimRefresh SimLease SimLeaseT SimLeaseC SimFresh Witness2.
 Open Scope Z_scope.
 
 Theorem C05_acquisition_token_readable_nonempty :
@@ -20,3 +20,18 @@ Theorem C05_refresh_republishes_term_token :
 Proof. exact refresh_legit_thm. Qed.
 Print Assumptions C05_refresh_republishes_term_token.
 
+
+(* first clause of the property: every successful acquisition publishes a token that has never appeared in the record
+   before - for every admitted trace in which nobody else writes the bucket and no priority takeover is configured
+   (Proofs/SimFresh.v: tokens in the history are tokens of applied Creates; pending Creates carry pairwise different tokens).
+   PARTIAL: with an outside writer the clause is decided by the monitor only (the writer could publish any token), and the
+   takeover path (which republishes the payload of the attempt's own, unsuccessful, Create) is not covered by the theorem. *)
+Theorem C05_partial_acquisition_token_is_fresh :
+  forall tr, admits base0 tr = true -> env5_admits base0 tr = true ->
+  forall pre te post, tr = pre ++ te :: post -> ~ In 501 (mon_C05 (brun pre) te).
+Proof. exact C05_acquisition_token_is_fresh. Qed.
+Print Assumptions C05_partial_acquisition_token_is_fresh.
+
+Theorem C05_partial_nonvacuous : admits base0 lease_witness = true /\ env5_admits base0 lease_witness = true.
+Proof. exact (conj lease_witness_admitted lease_witness_env5). Qed.
+Print Assumptions C05_partial_nonvacuous.
